@@ -175,6 +175,15 @@ def cases(tier, seed):
             yield c(fmt="max", mode=mode, cols=64, rows=5, kind=kind)
             yield c(fmt="max", mode=mode, cols=32, rows=7, kind=kind, newsroom=True)
             yield c(fmt="max", mode=mode, cols=16, rows=3, kind=kind, skip=5)
+    # header fields at their boundaries: one-byte Newsroom width (in bytes) and height up to 255, and the 5-byte header's
+    # 16-bit length with -r / -w around 128 and 256 rows
+    for i, (cols, rows) in enumerate(((8, 127), (8, 128), (16, 129), (8, 200), (8, 255), (8 * 127, 2), (8 * 128, 2), (8 * 255, 1), (8 * 200, 3))):
+        for mode in (list(M.MAX_MODES) if not q else [list(M.MAX_MODES)[i % 9], "bw" if "bw" in M.MAX_MODES else list(M.MAX_MODES)[0]]):
+            yield c(fmt="max", mode=mode, cols=cols, rows=rows, kind="random", newsroom=True)
+            if cols <= 1024:
+                yield c(fmt="max", mode=mode, cols=cols, rows=rows, kind="corners")
+    for (w, h) in ((254, 1), (255, 2), (256, 1), (510, 1), (512, 2), (2, 255), (2, 256), (4, 300), (1022, 1)):
+        yield c(fmt="hrs", w=w, h=h, kind="random")
     # full-size fixed formats
     reps = 1 if q else 12
     for rep in range(reps):
